@@ -114,6 +114,9 @@ func c17Exec(c c17Case, st *lab.Stats) *lab.Fail {
 		go func() {
 			defer wg.Done()
 			for atomic.LoadInt32(&stop) == 0 {
+				if c.GoMaxProcs <= 2 {
+					runtime.Gosched() // a pure spin on 1-2 Ps costs a 10 ms preemption slice per poller and step
+				}
 				if s.Ready() {
 					first := atomic.CompareAndSwapInt32(&sawTrue, 0, 1)
 					if first {
@@ -212,12 +215,13 @@ func TestC17(t *testing.T) {
 			c := c17Case{
 				Pollers:    rapid.SampledFrom([]int{0, 1, 2, 4, 8}).Draw(t, "pollers"),
 				GoMaxProcs: rapid.SampledFrom([]int{1, 2, 4, 16}).Draw(t, "gomaxprocs"),
-				SpinBefore: rapid.SampledFrom([]int{0, 1, 10, 100}).Draw(t, "spin"),
+				SpinBefore: rapid.SampledFrom([]int{0, 1, 3, 10}).Draw(t, "spin"),
 			}
-			switch rapid.IntRange(0, 3).Draw(t, "class") {
+			// malformed forms cost ~1 s each (resolver timeout in validateAddrPort): lower weight
+			switch rapid.IntRange(0, 7).Draw(t, "class") {
 			case 0:
 				c.Form = rapid.SampledFrom(c17Malformed).Draw(t, "malformed")
-			case 1:
+			case 1, 2, 3:
 				c.Form, c.Valid, c.PortInUse = rapid.SampledFrom(c17Valid).Draw(t, "validform"), true, true
 			default:
 				c.Form, c.Valid = rapid.SampledFrom(c17Valid).Draw(t, "validform"), true
